@@ -139,7 +139,12 @@ theorem litCast_sound (sm : SymMap) (lit ty : Ty) (hl : lit = .int ∨ lit = .st
   unfold litCastOk at h
   unfold SymMap.canBeCastedTo
   rcases hl with rfl | rfl | rfl | rfl | rfl <;> cases ty <;>
-    first | rfl | (simp only [Ty.canBeCastedTo] at h ⊢; exact h)
+    first
+      | rfl
+      | (simp only [Ty.canBeCastedTo] at h ⊢; exact h)
+      | (rename_i w
+         rcases w with _ | _ | w <;>
+           first | rfl | (simp only [Ty.canBeCastedTo] at h ⊢; exact h) | (simp [Ty.canBeCastedTo] at h))
 
 theorem litType_cases (sv : PTree) (t : Ty) (h : litType sv = some t) :
     t = .int ∨ t = .string ∨ t = .code ∨ t = .bit ∨ t = .uninitialized := by
